@@ -4,6 +4,8 @@ import HdVerif.Generated.T9b
 import HdVerif.Generated.T9c
 import HdVerif.Generated.T9d
 import HdVerif.Generated.T9e
+import HdVerif.Generated.T9f
+import HdVerif.Generated.T9g
 import HdVerif.Generated.T10a
 import HdVerif.Generated.T10b
 import HdVerif.Generated.T10c
@@ -833,5 +835,53 @@ def runHistoryGeom (coord : Coord) (g : Geom) : List Op → Except ErrKind Geom
     let (g1, _) ← op.applyGeom coord g
     runHistoryGeom coord g1 rest
   | _ :: rest => runHistoryGeom coord g rest
+
+
+/-! ## where result arrays live (allocation kinds regenerated from source: T9f, T9g)
+
+"The original object is unchanged" has two halves.  (1) The operation itself does not write into the input: the
+translator lists every in-place store and every call with an in-place flag of the operation methods and affine helpers
+together with the kind of the array written (`volumeArrayWrites`, `volumeInplaceCalls`, `affineHelperWrites`, …).
+(2) Working in place on the *result* does not reach the input: that depends on how the result's array is produced
+(`volumeArrayAlloc`): a fresh allocation, a view of the object's own array, the caller's array, or a numpy function that
+decides at run time whether it copies (`np.ascontiguousarray`, `np.asarray`, … — "may alias"). -/
+
+inductive Alloc | fresh | view | given | mayAlias | input | unknown
+deriving DecidableEq, Repr, Inhabited
+
+def Alloc.parse (s : String) : Alloc :=
+  if s = "fresh" then .fresh else if s = "view" then .view else if s = "given" then .given
+  else if s = "may_alias" then .mayAlias else if s = "input" then .input else .unknown
+
+/-- how the method produces the array of its result, according to the current source -/
+def arrayAllocOf (method : String) : Option Alloc := (volumeArrayAlloc.lookup method).map Alloc.parse
+
+/-- a store of array buffers; an object's array lives in one of them (views index into the same buffer) -/
+abbrev Store := List (List Rat)
+
+/-- buffer the result's array lives in, given the buffer `own` of the input object's array and the buffer `given` of an
+array argument: a fresh allocation is a new buffer, a view stays in the object's buffer, a given array is the caller's;
+for the may-alias functions numpy decides at run time, so nothing is guaranteed -/
+def resultBuffer (a : Alloc) (s : Store) (own given : Nat) : Option Nat :=
+  match a with
+  | .fresh => some s.length
+  | .view => some own
+  | .input => some own
+  | .given => some given
+  | .mayAlias => none
+  | .unknown => none
+
+/-- the store after the operation: a fresh result appends its buffer, everything else leaves the store as it is
+(the operation methods write nothing else: `ops_never_write_input`) -/
+def storeAfter (a : Alloc) (s : Store) (contents : List Rat) : Store :=
+  match a with
+  | .fresh => s ++ [contents]
+  | _ => s
+
+/-- an in-place edit: element `k` of buffer `b` becomes `x` -/
+def writeBuf : Store → Nat → Nat → Rat → Store
+  | [], _, _, _ => []
+  | buf :: rest, 0, k, x => buf.set k x :: rest
+  | buf :: rest, b + 1, k, x => buf :: writeBuf rest b k x
 
 end HdVerif.Vol
